@@ -207,6 +207,14 @@ class NumpyQuantity(Generic[MagnitudeT], PlainQuantity[MagnitudeT]):
         """
         return np.prod(self, *args, **kwargs)
 
+    @method_wraps("cumprod")
+    def cumprod(self, *args, **kwargs):
+        """Return the cumulative product of quantity elements along a given axis
+
+        Wraps np.cumprod(), which leaves the quantity itself untouched.
+        """
+        return np.cumprod(self, *args, **kwargs)
+
     def __ito_if_needed(self, to_units):
         if self.unitless and to_units == "radian":
             return
